@@ -190,8 +190,11 @@ def finalize(rng, txs, time=T0, bits=REGTEST_BITS, commit='ok', extra=0, cbwit='
         nonce = W.rb(rng, 32)
         if not cb[1]:
             cbwit = 'none'              # no input: no witness stack either (stay in wire range)
+        # the item the commitment is computed with is the one in the witness, so that a wrong
+        # length is the only defect of 'short' / 'long' / 'noitem'
+        nonce = {'short': nonce[:31], 'long': nonce + b'\x00', 'noitem': b''}.get(cbwit, nonce)
         cb[3] = {'ok': [[nonce]], 'none': [], 'empty': [[] for _ in cb[1]], 'two': [[nonce, b'\x01']],
-                 'short': [[nonce[:31]]], 'long': [[nonce + b'\x00']], 'noitem': [[b'']]}[cbwit]
+                 'short': [[nonce]], 'long': [[nonce]], 'noitem': [[nonce]]}[cbwit]
         if cbwit in ('ok', 'two') and len(cb[1]) != 1:
             cb[3] = [[nonce]] + [[] for _ in cb[1][1:]]
         wroot = merkle_root([NULL_HASH] + [wtxid(t) for t in txs[1:]])
